@@ -70,6 +70,30 @@ ONE={
 "C16-B2":("unsync admitted-with-victims path pushes the write-order node only if tti is set","ttl only, full cache, newcomer admitted over a victim"),
 "C17-A2":("unsync `CacheBuilder::weigher` copies ttl into tti","expiry knob called before `.weigher()`"),
 "C17-B2":("`ensure_expirations_or_panic`: `else if` between the two checks","valid ttl together with a tti over 1000 years"),
+"C02-A3":("sync maintenance clears `valid_after` when its own entry count is 0","insert(k) + invalidate_all on one thread while another is inside sync() past the write-queue drain"),
+"C02-B3":("sync `insert` update branch skips the write if `last_accessed > ts`","writer preempted between clock read and map update, a reader's hit applied by sync in between"),
+"C03-A3":("sync `Inner::sync` reads the counters before taking the maintenance lock","two threads inside sync() at once"),
+"C03-B3":("sync update refreshes timestamps only if an expiry policy exists","no ttl/tti; re-insert of a key whose invalidated entry is still physically in the map"),
+"C04-A3":("unsync, two cooperating edits: oversize check dropped + weight clause dropped in `admit`","oversized key that was looked up more often than all residents together"),
+"C04-B3":("sync `schedule_write_op` gives up after 200 retries","write queue kept full for 10-30 ms by a long maintenance run"),
+"C05-A3":("sync `get` checks expiry after releasing the map lock","update of the key between two adjacent statements of a reader's get (real threads)"),
+"C05-B3":("unsync `build_with_hasher` swaps ttl and tti","custom hasher, ttl only, a read before the deadline"),
+"C07-A3":("sync `Iter` reads `valid_after` once at creation","iterator held across invalidate_all()"),
+"C07-B3":("`set_instant_if_later`: check and store in two critical sections","three or more threads in invalidate_all (real threads)"),
+"C08-A3":("sync sketch sizing multiplies entry_count * weighted_size in u64","the run that enables the sketch sees >= 65 537 entries of weight near u32::MAX"),
+"C08-B3":("sketch `index_of`: `hash += hash >> 32` (checked add)","a hash whose mixed value has all upper 32 bits set"),
+"C09-A3":("housekeeping hoisted out of the write retry loop","queue fills while another thread is past the drain of its maintenance run"),
+"C09-B3":("`Inner::sync`: `while should_sync || calls <= max_repeats`","sustained load from >= 2 other threads (starvation, not a permanent hang)"),
+"C10-A3":("sync currency check uses `try_get().try_unwrap()`","another thread holds the shard's write lock at that instant (real threads)"),
+"C10-B3":("sync update branch subtracts the op's `old_weight`","update landing between two statements of `handle_upsert` (real threads, ~2M updates)"),
+"C11-A3":("sync currency check uses `try_get().try_unwrap()`","as C10-A3"),
+"C11-B3":("sync `invalidate` skips the Remove op for not-yet-admitted entries","invalidate between the guard and `set_admitted(true)` of `handle_upsert` (real threads)"),
+"C12-A3":("sync `evict_lru_entries`: `lm >= ts` instead of `==`","another thread updates the LRU key between peek_front and remove_if (no switch point there)"),
+"C12-B3":("sync `handle_upsert` clears the dirty flag before the stale-op check","over capacity, LRU key updated twice, maintenance running between the two queued ops (exactly 64 queued writes)"),
+"C13-A3":("unsync oversize guard compares against `max as u32`","max_capacity >= 2^32"),
+"C13-B3":("sync admission candidate built with the entry's stored weight","new key inserted twice with different weights before maintenance"),
+"C16-A3":("sync iterator reads the clock once at creation","iterator held while entries expire"),
+"C16-B3":("unsync `Debug` walks the raw map","expired, unpurged entries and `{:?}`"),
 }
 rows=[]
 for d in sorted(glob.glob("/verif/seeded/*/meta.json")):
@@ -122,7 +146,40 @@ full write queue). `seeded/C08-*2`'s author also reported a use-after-free on
 the *unchanged* tree; it was reproduced by a new SCHED litmus program and
 repaired (R3, §2).
 
+Third round (ids ending in `3`; the sub-agents were asked for changes that only
+very specific circumstances expose: three or more threads, preemptions between
+two particular statements, more than a batch of entries, numeric boundaries,
+held iterators, `Debug`, ...). Strengthened after misses: `C16-B3` (`DebugFmt`
+operation: the `Debug` output is checked as an iteration), `C16-A3` (C16 also
+reports expired values an iteration shows), `C07-A3` (`IterInvalidateAll`: an
+iterator held across `invalidate_all()`), `C04-A3` (more popular oversized
+newcomers in the C04 profile), `C04-B3` (scheduler "patience": a thread may
+retry a full queue 250 times before anybody else is scheduled), `C08-B3`
+(boundary pre-image hashes for the sketch's index mixing), `C08-A3`, `C13-A3`
+("huge" configurations: capacities around 2^32, weights around u32::MAX, and a
+final burst of 140 000 maximal-weight inserts), `C05-A3` (STRESS: ttl
+generations on the mock clock, 60 000 chances for the race), `C10-A3`,
+`C11-A3`, `C11-B3` (STRESS "mixed" workload with state oracles after
+quiescence, incl. a variant where all keys share one shard of the map).
+The author of `seeded/C08-*3` reported three more observations on the unchanged
+tree; none is inside the quantifier of C08 and all are recorded in §7
+(a key whose `Hash` changes while it is cached, `initial_capacity` near
+`usize::MAX`, a 2^30-slot sketch).
+
 Not caught (or caught only elsewhere), with the reason:
+* `C12-A3`, `C10-B3` — need a second thread to act between two adjacent
+  statements inside `evict_lru_entries` / `handle_upsert`, where there is no
+  switch point; the authors' own tailored stress needed ~2 million updates for
+  one hit. Out of reach of SCHED by construction, and too rare for the fixed
+  work of STRESS.
+* `C12-B3` — needs an automatic maintenance run to fall between a stale queued
+  update and the newer queued update of the same key while the cache is over
+  capacity (exactly 64 queued writes). The lock-step model does not follow a
+  window that an automatic run splits, so no oracle decides the victim there.
+* `C09-B3` — starvation of one thread while others keep the queues above the
+  flush point for ever; every finite program still terminates, and the
+  author's own demonstration did not fail when re-run here. Bounded liveness
+  cannot see it (§7).
 * `C06-A2` — the change stamps a hit with a clock reading taken a few
   statements later inside the same `get`. At the granularity of API calls "the
   clock reading of the get" is any reading between the call's start and end,
